@@ -11,7 +11,8 @@ VARIABLES tid, l, hs, mons, why, dr
 vars == <<tid, l, hs, mons, why, dr>>
 
 Init == /\ tid \in 1..Len(Traces) /\ l = 0
-        /\ hs = <<InitH, InitH>> /\ mons = <<InitMon, InitMon>>
+        /\ hs = <<[InitH EXCEPT !.sn = Traces[tid].init.sn0], InitH>>      \* sn0: own counter at the start of the run
+        /\ mons = <<InitMon, InitMon>>
         /\ why = "ok" /\ dr = "ok"
 
 Step ==
